@@ -243,6 +243,38 @@ def run(ctx):
             ctx.binding_checks.append({"family": what, "original": v[good["tid"]][1], "corrupted": v[badt["tid"]][1], "ok": ok})
             if not ok:
                 raise Machinery("binding self-check failed for %s: original=%r corrupted=%r" % (what, v[good["tid"]], v[badt["tid"]]))
+    # ---------------------------------------------------------------- 5. growth: Crypto.Util.strxor (the XOR helper under EAX, SIV, CCM, OpenPGP, KW, HMAC, PBKDF2)
+    xt = ctx.drive("c09_xor", [], inp={"per_trace": 40, "tid0": 500000})["traces"]
+    xv = ctx.validate("XorTrace", xt, shards=2 if quick else 4, family="strxor")
+    xgood = None
+    xcalls = collections.Counter()
+    for t in xt:
+        pos, clause = xv[t["tid"]]
+        for e in t["events"]:
+            ctx.count()
+            xcalls["%s/%s" % (e["fn"], e["out"])] += 1
+            if e["a"]:
+                ctx.nontriv(["strxor", e["fn"], len(e["a"]), len(e["b"]), e["ka"], e["kb"], e["out"], e["c"]])
+        if clause == "ok":
+            if xgood is None and any(e["exc"] == "none" and len(e["res"]) > 2 for e in t["events"]):
+                xgood = t
+            continue
+        if clause.startswith("harness:"):
+            raise Machinery("harness inconsistency in strxor trace %d at %d: %s" % (t["tid"], pos, clause))
+        e = t["events"][pos - 1]
+        ctx.violation("strxor/%s: %s" % (e["fn"], clause),
+                      {"function": e["fn"], "term1": bytes(e["a"]).hex(), "term2": bytes(e["b"]).hex(), "c": e["c"], "containers": [e["ka"], e["kb"]], "output": e["out"],
+                       "output_length": e["outlen"], "raised": e["exc"], "returned": e["ret"], "result": bytes(e["res"]).hex()}, replay=dict(t, events=[e]))
+    ctx.extra["strxor_calls"] = dict(sorted(xcalls.items()))
+    if xgood is None:
+        if not ctx.violations:
+            raise Machinery("no accepted strxor trace for the binding self-check")
+    else:
+        def flip_xor(t):
+            e = next(e for e in t["events"] if e["exc"] == "none" and len(e["res"]) > 2)
+            e["res"][1] ^= 0x04
+            return t
+        ctx.binding_selfcheck("XorTrace", xgood, flip_xor, "strxor: one bit of a result")
     ctx.extra["traces_per_family"] = dict(sorted(total.items()))
     ctx.extra["data_calls_by_buffer_type_and_result_mode"] = dict(sorted(matrix.items()))
     ctx.extra["calls_with_projected_private_state"] = dict(sorted(projected.items()))
@@ -255,6 +287,8 @@ def run(ctx):
                 "offset, read-only view of a bytearray overwritten after the call} x result mode {returned, output= bytearray, "
                 "output= memoryview, output= the input buffer}, both directions; distinct_nontrivial = distinct (family, parameters, "
                 "calls with lengths, buffer types and result modes) that carry data" % len(names))
+    ctx.rule += ("; growth: strxor / strxor_c for lengths 0..257 around word sizes x input container kinds x output {returned, bytearray, memoryview "
+                 "window with guard bytes, an input itself, read-only, too short, too long}, terms of different length, c outside 0..255 (spec/trace/XorTrace)")
     ctx.assume("the one-shot reference values are the library's own on a fresh object fed plain bytes once (that they equal the "
                "standards is the subject of C02/C03)")
     ctx.assume("projection of private attributes (_cache, _cache_A/_cache_P, _cache_n, _data_size, _kdf._n_updates, K12 _state/_length*) "
